@@ -89,6 +89,9 @@ def failing_calls(u, rng):
     calls.append(('setAttribute unknown keyword', lambda: P1.setAttribute('bogus', 'v'), None))
     calls.append(('setAttribute invalid value over a valid one', lambda: ST.setAttribute('family', 'bogus-family'), None))
     calls.append(('setAttrNS invalid value over a valid one', lambda: ST.setAttrNS(D.STYLENS, 'family', 'bogus-family'), None))
+    calls.append(('setAttribute name=None on a style', lambda: ST.setAttribute('name', None), None))
+    calls.append(('setAttribute name=<a number> on a style', lambda: ST.setAttribute('name', 12), None))
+    calls.append(('setAttrNS name=<a list> on a style', lambda: ST.setAttrNS(D.STYLENS, 'name', ['a']), None))
     calls.append(('setAttribute invalid boolean', lambda: ST.setAttribute('autoupdate', 'maybe'), None))
     calls.append(('insertBefore foreign reference', lambda: P2.insertBefore(SPAN, C1 if C1.parentNode is not P2 else T2 if T2.parentNode is not P2 else LI),
                   ('dom_step', '(insert %d %d %d)' % (f[1], f[2], f[5] if C1.parentNode is not P2 else f[4] if T2.parentNode is not P2 else f[7]))))
